@@ -303,6 +303,7 @@ inductive PErr where
   | missing (id : String)
   | conflict (a b : String)
   | requiredIf (id : String)
+  | untokenisable
   deriving DecidableEq, Repr
 
 /-- Options only (no positional): every option must be declared, fit its arity and occur once. -/
@@ -381,7 +382,14 @@ def parse (top : List Decl) (subs : List (String × String × List Decl)) (items
             | .error e => .error e
             | .ok () => .ok ⟨st, some (variant, ss)⟩
 
-/-! ## Printing (driver only) -/
+/-! ## The argv level: what `ServiceInstallCtx.args` holds, and clap's tokeniser (subset)
+
+Both argument builders push every option as two separate strings `--name`, `value` (never
+`--name=value`), a list as ONE string of its elements joined by `,`, a flag as `--name`, the EVM
+network as one bare word. `argv` is that flattening (the correspondence run of component `upgrade`
+compares it string by string with the real `ServiceInstallCtx.args`). `lex` is what clap 4 makes of
+such a string list before it looks at the declarations' checks: which strings are options, which are
+values, where the subcommand starts. -/
 
 def IVal.words : IVal → List String
   | .none => []
@@ -391,6 +399,107 @@ def IVal.words : IVal → List String
 def Item.words (it : Item) : List String :=
   (match it.flag with | some n => ["--" ++ n] | none => []) ++ it.value.words
 
+/-- `flatten`: the strings of `ServiceInstallCtx.args`. -/
 def argv (items : List Item) : List String := items.flatMap Item.words
+
+/-- The declarations of the subcommand selected by the word `w` (none if it is no subcommand). -/
+def subDecls (subs : List (String × String × List Decl)) (w : String) : List Decl :=
+  match subs.find? (fun x => x.1 == w) with
+  | some x => x.2.2
+  | none => []
+
+/-- clap_lex's view of one string: `--` alone (escape), `--body` (long option, possibly `name=value`),
+`-x…` (short options — antnode declares none), anything else (incl. `-` alone and the empty string)
+is a value or a positional word. -/
+inductive Tok where
+  | long (body : List Char)
+  | escape
+  | short
+  | word
+  deriving DecidableEq, Repr
+
+def classify : List Char → Tok
+  | c₁ :: c₂ :: r =>
+    if c₁ = '-' then (if c₂ = '-' then (if r = [] then .escape else .long r) else .short) else .word
+  | _ => .word
+
+/-- A string clap never takes as the value of an option written before it (no antnode argument sets
+`allow_hyphen_values` / `allow_negative_numbers`): it starts with `-` and is not `-` alone. -/
+def looksLikeOption (s : String) : Bool :=
+  match classify s.toList with
+  | .word => false
+  | _ => true
+
+/-- `str::split(c)`: always at least one piece. -/
+def splitOnChar (c : Char) : List Char → List (List Char)
+  | [] => [[]]
+  | x :: xs =>
+    if x = c then [] :: splitOnChar c xs
+    else match splitOnChar c xs with
+      | p :: ps => (x :: p) :: ps
+      | [] => [[x]]
+
+/-- Split at the first `c` (`--name=value`). -/
+def splitFirst (c : Char) : List Char → List Char × Option (List Char)
+  | [] => ([], none)
+  | x :: xs => if x = c then ([], some xs) else (x :: (splitFirst c xs).1, (splitFirst c xs).2)
+
+/-- The value string of an option as clap stores it: `value_delimiter = ','` splits it. -/
+def lexValue (d : Decl) (v : String) : IVal :=
+  if d.delimiter then .joined ((splitOnChar ',' v.toList).map String.ofList) else .one v
+
+/-- clap's tokeniser on the subset antnode declares (long options only, one optional level of
+subcommands, no positional arguments). State: the declarations in scope, whether the subcommand word
+has been seen, and the option still waiting for its value (clap's `ParseState::Opt`).
+`none` = clap rejects the command line at this level (unknown option, `a value is required`, `--`,
+a short option, a second bare word), whatever the later checks would say. -/
+def lexGo (subs : List (String × String × List Decl)) :
+    List Decl → Bool → Option (String × Decl) → List String → Option (List Item)
+  | _, _, none, [] => some []
+  | _, _, some _, [] => none
+  | ds, inSub, some (n, d), a :: rest =>
+    if looksLikeOption a then none
+    else (lexGo subs ds inSub none rest).map (⟨some n, lexValue d a⟩ :: ·)
+  | ds, inSub, none, a :: rest =>
+    match classify a.toList with
+    | .escape => none
+    | .short => none
+    | .long body =>
+      let n := String.ofList (splitFirst '=' body).1
+      match findLong ds n with
+      | none => none
+      | some d =>
+        match (splitFirst '=' body).2 with
+        | some v =>
+          if d.arity == .flag then none
+          else (lexGo subs ds inSub none rest).map (⟨some n, lexValue d (String.ofList v)⟩ :: ·)
+        | none =>
+          if d.arity == .flag then (lexGo subs ds inSub none rest).map (⟨some n, .none⟩ :: ·)
+          else lexGo subs ds inSub (some (n, d)) rest
+    | .word =>
+      if inSub then none
+      else (lexGo subs (subDecls subs a) true none rest).map (⟨none, .one a⟩ :: ·)
+
+def lex (top : List Decl) (subs : List (String × String × List Decl)) (args : List String) : Option (List Item) :=
+  lexGo subs top false none args
+
+/-- Tokenise, then parse. -/
+def parseArgv (top : List Decl) (subs : List (String × String × List Decl)) (args : List String) : Except PErr Parsed :=
+  match lex top subs args with
+  | none => .error .untokenisable
+  | some items => parse top subs items
+
+/-! ### The side condition under which `lex (argv items) = items` (proved in `Proofs/ArgLex.lean`) -/
+
+/-- The value part of an item survives flattening and re-tokenisation: a single value does not look
+like an option; a list is non-empty, none of its elements contains the delimiter, and the joined
+string does not look like an option. -/
+def IVal.lexSafe : IVal → Bool
+  | .none => true
+  | .one s => !looksLikeOption s
+  | .joined l => !l.isEmpty && l.all (fun s => !s.toList.contains ',') && !looksLikeOption (",".intercalate l)
+
+/-- **ValuesLexSafe**: every value of the argument list survives flattening and re-tokenisation. -/
+def ValuesLexSafe (items : List Item) : Bool := items.all fun it => it.value.lexSafe
 
 end SafeNet.ArgTable
